@@ -175,7 +175,8 @@ class TaskManager:
             assert isinstance(user_task, (Task, Future))
 
             def done_cb(future: Future) -> None:
-                self._pending_tasks.pop(name, None)
+                if self._pending_tasks.get(name) is future:
+                    self._pending_tasks.pop(name, None)
                 try:
                     future.result()
                 except CancelledError:
